@@ -115,8 +115,10 @@ pub struct Finding {
 }
 
 impl Finding {
-    fn key(&self) -> (String, String) {
-        (self.stage.to_string(), self.class.clone())
+    /// Identity used while fuzzing and shrinking, when frames are not
+    /// resolved: the class without the " <- frame" part.
+    fn key(&self) -> String {
+        self.class.split(" <- ").next().unwrap_or("").to_string()
     }
     fn signature(&self, fmt: Fmt) -> String {
         format!("C05|{}|{}|{}|{}", fmt.name(), self.group, self.stage, self.class)
@@ -305,7 +307,7 @@ impl Ctx {
     }
 
     /// Run `cases` in as few children as possible. Returns one outcome per case.
-    pub fn run_batch(&self, cases: &[Case], alarm_s: u32, demonstrate: bool) -> Vec<Outcome> {
+    pub fn run_batch(&self, cases: &[Case], alarm_s: u32, demonstrate: bool, resolve_frames: bool) -> Vec<Outcome> {
         let mut outcomes: Vec<Outcome> = Vec::with_capacity(cases.len());
         let mut start = 0usize;
         while start < cases.len() {
@@ -318,7 +320,7 @@ impl Ctx {
                 ex::install_child_alloc_hook();
                 for (i, c) in slice.iter().enumerate() {
                     region.begin_case(i as u32, alarm_s);
-                    let xo = ExecOpts { alarm_s, run_alarm_s: (alarm_s / 4).max(3), const_outputs: if c.run_model { 8 } else { 2 }, run_model: c.run_model, demonstrate };
+                    let xo = ExecOpts { alarm_s, run_alarm_s: (alarm_s / 4).max(3), resolve_frames, const_outputs: if c.run_model { 8 } else { 2 }, run_model: c.run_model, demonstrate };
                     let outs = ex::exec_case(&c.bytes, c.mask, c.fmt == Fmt::Rten, env, Some(region), &xo);
                     region.push_record(&Json::Array(outs.iter().map(|o| o.to_json()).collect()).to_string());
                 }
@@ -367,7 +369,7 @@ impl Ctx {
     /// process (panics, malformed constants): forking per attempt costs tens
     /// of milliseconds on a loaded machine. Every improvement is published to
     /// the shared region, so a death half-way still leaves the best so far.
-    pub fn shrink_in_child(&self, case: &Case, key: &(String, String), max_exec: usize, box_s: f64) -> (Vec<u8>, usize) {
+    pub fn shrink_in_child(&self, case: &Case, key: &str, max_exec: usize, box_s: f64) -> (Vec<u8>, usize) {
         allocmon::set_shared(self.region.max_alloc_ptr());
         let region = &self.region;
         let env = &self.env;
@@ -377,7 +379,7 @@ impl Ctx {
                 ex::install_child_alloc_hook();
             let t0 = std::time::Instant::now();
             let mut execs = 0u32;
-            let xo = ExecOpts { alarm_s, run_alarm_s: 3, const_outputs: 2, run_model: false, demonstrate: false };
+            let xo = ExecOpts { alarm_s, run_alarm_s: 3, resolve_frames: false, const_outputs: 2, run_model: false, demonstrate: false };
             let (best, _) = shrink::ddmin(&case.bytes, max_exec, |cand| {
                 execs += 1;
                 if t0.elapsed().as_secs_f64() > box_s {
@@ -386,7 +388,7 @@ impl Ctx {
                 region.begin_case(execs, alarm_s);
                 let outs = ex::exec_case(cand, FULL_MASK, case.fmt == Fmt::Rten, env, Some(region), &xo);
                 let oc = Outcome { outs, crash: None };
-                let hit = judge(cand, &oc).iter().any(|g| &g.key() == key);
+                let hit = judge(cand, &oc).iter().any(|g| g.key() == key);
                 if hit {
                     region.push_record(&format!("{}:{}", execs, to_hex(cand)));
                 }
@@ -402,8 +404,8 @@ impl Ctx {
         }
     }
 
-    pub fn run_one(&self, case: &Case, alarm_s: u32, demonstrate: bool) -> Outcome {
-        self.run_batch(std::slice::from_ref(case), alarm_s, demonstrate).pop().unwrap_or_default()
+    pub fn run_one(&self, case: &Case, alarm_s: u32, demonstrate: bool, resolve_frames: bool) -> Outcome {
+        self.run_batch(std::slice::from_ref(case), alarm_s, demonstrate, resolve_frames).pop().unwrap_or_default()
     }
 }
 
@@ -678,7 +680,7 @@ fn pick_mask(rng: &mut Rng, fmt: Fmt) -> u32 {
 pub struct Runner<'a> {
     pub rep: &'a mut Report,
     pub ctx: &'a Ctx,
-    seen: HashSet<(Fmt, String, String)>,
+    seen: HashSet<(Fmt, String)>,
     pub shrink_exec: usize,
     pub shrink_box_s: f64,
     pub unattributed: Vec<Json>,
@@ -718,7 +720,7 @@ fn past_framing(o: &EntryOut) -> bool {
 
 impl<'a> Runner<'a> {
     pub fn new(rep: &'a mut Report, ctx: &'a Ctx) -> Self {
-        Runner { rep, ctx, seen: HashSet::new(), shrink_exec: 300, shrink_box_s: 5.0, unattributed: Vec::new(), replaying: false }
+        Runner { rep, ctx, seen: HashSet::new(), shrink_exec: 150, shrink_box_s: 2.0, unattributed: Vec::new(), replaying: false }
     }
 
     fn evidence(&mut self, case: &Case, oc: &Outcome) {
@@ -751,6 +753,13 @@ impl<'a> Runner<'a> {
             rep.max("max_alloc_request_per_1000_input_bytes", o.max_alloc.saturating_mul(1000) / len);
             rep.max("max_load_micros", o.micros);
             rep.add("load_micros_total", o.micros);
+            if o.micros > 100_000 {
+                rep.count("loads_slower_than_100ms");
+                rep.add("load_micros_in_loads_slower_than_100ms", o.micros);
+                if o.max_alloc > (64 << 20) {
+                    rep.count("loads_slower_than_100ms_with_alloc_over_64MiB");
+                }
+            }
             if o.status == "ok" {
                 rep.count(&format!("models_examined.{}", case.fmt.name()));
                 rep.add("constants_walked", o.n_consts);
@@ -796,7 +805,7 @@ impl<'a> Runner<'a> {
         let unjudged_run_death = oc.crash.as_ref().map(|c| matches!(c.stage, ex::ST_RUN | ex::ST_CONST_OUT) && c.malformed_seen == 0).unwrap_or(false);
         if let (Some(c), false) = (&oc.crash, unjudged_run_death) {
             let confirm_alarm = if c.class == "timeout" { self.ctx.alarm_s * 4 } else { self.ctx.alarm_s };
-            let again = self.ctx.run_one(case, confirm_alarm, false);
+            let again = self.ctx.run_one(case, confirm_alarm, false, false);
             match (&again.crash, c) {
                 (Some(c2), c1) if c2.class == c1.class && c2.stage == c1.stage => {
                     self.rep.count("child_death_confirmed_alone");
@@ -833,19 +842,17 @@ impl<'a> Runner<'a> {
         }
         let findings = judge(&case.bytes, &oc);
         for f in findings {
-            self.rep.count(&format!("finding.{}", f.signature(case.origin)));
-            let k = f.key();
-            if !self.seen.insert((case.origin, k.0, k.1)) {
+            self.rep.count(&format!("finding_hits.{}|{}", case.origin.name(), f.key()));
+            if !self.seen.insert((case.origin, f.key())) {
                 continue;
             }
             self.report(case, &f);
         }
     }
 
-    fn reproduces(&self, case: &Case, bytes: &[u8], f: &Finding) -> Option<Finding> {
+    fn reproduces(&self, case: &Case, bytes: &[u8], f: &Finding, resolve_frames: bool) -> Option<Finding> {
         let c = Case { bytes: bytes.to_vec(), mask: FULL_MASK, run_model: false, ..case.clone() };
-        let alarm = if f.class == "no_return_within_bound" { self.ctx.alarm_s } else { self.ctx.alarm_s };
-        let mut oc = self.ctx.run_one(&c, alarm, false);
+        let mut oc = self.ctx.run_one(&c, self.ctx.alarm_s, false, resolve_frames);
         if let Some(cr) = oc.crash.as_mut() {
             if cr.class == "timeout" && cr.stage == ex::ST_LOAD && f.class == "no_return_within_bound" {
                 cr.class = "no_return_within_bound".into();
@@ -858,26 +865,26 @@ impl<'a> Runner<'a> {
         let t0 = std::time::Instant::now();
         let mut execs = 0usize;
         let (shrunk, fin) = if self.replaying || f.class == "no_return_within_bound" {
-            (case.bytes.clone(), self.reproduces(case, &case.bytes, f).unwrap_or_else(|| f.clone()))
+            (case.bytes.clone(), self.reproduces(case, &case.bytes, f, true).unwrap_or_else(|| f.clone()))
         } else {
             let max_exec = if case.bytes.len() > 100_000 { 30 } else { self.shrink_exec };
             let box_s = self.shrink_box_s;
             let kills_process = !(f.class.starts_with("panic:") || f.class.starts_with("malformed_constant:"));
             let res = if kills_process {
                 // One child per attempt: keep it short.
-                shrink::ddmin(&case.bytes, max_exec.min(60), |cand| {
+                shrink::ddmin(&case.bytes, max_exec.min(24), |cand| {
                     execs += 1;
-                    t0.elapsed().as_secs_f64() < box_s && self.reproduces(case, cand, f).is_some()
+                    t0.elapsed().as_secs_f64() < box_s && self.reproduces(case, cand, f, false).is_some()
                 })
             } else {
                 let (b, n) = self.ctx.shrink_in_child(case, &f.key(), max_exec, box_s);
                 execs = n;
                 (b, n)
             };
-            match self.reproduces(case, &res.0, f) {
+            match self.reproduces(case, &res.0, f, true) {
                 Some(fin) => (res.0, fin),
                 // Never report a shrunk input that does not reproduce.
-                None => (case.bytes.clone(), self.reproduces(case, &case.bytes, f).unwrap_or_else(|| f.clone())),
+                None => (case.bytes.clone(), self.reproduces(case, &case.bytes, f, true).unwrap_or_else(|| f.clone())),
             }
         };
         self.rep.add("time_us.shrinking", t0.elapsed().as_micros() as u64);
@@ -886,7 +893,7 @@ impl<'a> Runner<'a> {
         let mut consequence = Json::Null;
         if fin.class.starts_with("malformed_constant:") {
             let c = Case { bytes: shrunk.clone(), mask: ex::entry_bit(fin.entry), run_model: true, ..case.clone() };
-            let oc = self.ctx.run_one(&c, self.ctx.alarm_s, true);
+            let oc = self.ctx.run_one(&c, self.ctx.alarm_s, true, false);
             consequence = match &oc.crash {
                 Some(cr) => json!({"reading_all_elements_and_running_the_model": format!("child ended with {} in stage {}", cr.class, ex::stage_name(cr.stage)), "stderr": tail(&cr.stderr, 2500)}),
                 None => json!({"reading_all_elements_and_running_the_model": "completed", "run": oc.outs.first().map(|o| o.run.clone())}),
@@ -943,6 +950,9 @@ fn read_witness_file(path: &str) -> Option<Case> {
 
 pub fn run(args: &Args) {
     unsafe { std::env::set_var("RUST_BACKTRACE", "0") };
+    // rten's global pool (used by constant propagation during a load) would
+    // otherwise start one spinning worker per core in every child of every shard.
+    unsafe { std::env::set_var("RTEN_NUM_THREADS", "1") };
     let mut rep = Report::new("C05", "loadfuzz", args, RULE);
     rep.max_violations = 64;
     rep.max_per_group = 24;
@@ -952,7 +962,7 @@ pub fn run(args: &Args) {
         let case = read_witness_file(path).expect("replay file has no usable witness (fmt + hex)");
         let mut r = Runner::new(&mut rep, &ctx);
         r.replaying = true;
-        let oc = r.ctx.run_one(&case, ctx.alarm_s, false);
+        let oc = r.ctx.run_one(&case, ctx.alarm_s, false, true);
         r.absorb(&case, oc);
         ctx.env.cleanup();
         rep.finish();
@@ -1006,7 +1016,7 @@ pub fn run(args: &Args) {
     let mut runner = Runner::new(&mut rep, &ctx);
     if args.thorough {
         runner.shrink_exec = 400;
-        runner.shrink_box_s = 30.0;
+        runner.shrink_box_s = 20.0;
     }
     let batch_size: usize = 256;
     let budget = args.budget(24_000, 2_400_000);
@@ -1017,7 +1027,7 @@ pub fn run(args: &Args) {
             for p in list.split(',').filter(|p| !p.is_empty()) {
                 match read_witness_file(p) {
                     Some(case) => {
-                        let oc = runner.ctx.run_one(&case, ctx.alarm_s, false);
+                        let oc = runner.ctx.run_one(&case, ctx.alarm_s, false, true);
                         runner.absorb(&case, oc);
                         runner.rep.count("pinned_witnesses_run");
                     }
@@ -1044,7 +1054,7 @@ pub fn run(args: &Args) {
     {
         let cases: Vec<Case> = seed_cases.iter().map(|c| c.0.clone()).collect();
         for chunk in cases.chunks(batch_size).zip(seed_cases.chunks(batch_size)) {
-            let ocs = runner.ctx.run_batch(chunk.0, ctx.alarm_s, false);
+            let ocs = runner.ctx.run_batch(chunk.0, ctx.alarm_s, false, false);
             for ((case, must), oc) in chunk.1.iter().zip(ocs) {
                 if *must {
                     let ok = oc.crash.is_none() && !oc.outs.is_empty() && oc.outs.iter().all(|o| o.status == "ok" && o.bad.is_empty());
@@ -1097,7 +1107,7 @@ pub fn run(args: &Args) {
             break;
         }
         let tb = std::time::Instant::now();
-        let ocs = runner.ctx.run_batch(&batch, ctx.alarm_s, false);
+        let ocs = runner.ctx.run_batch(&batch, ctx.alarm_s, false, false);
         if std::env::var_os("LF_DEBUG").is_some() {
             let slow = batch.iter().zip(&ocs).map(|(c, o)| (o.outs.iter().map(|e| e.micros).sum::<u64>(), c.class.clone(), c.seed_name.clone(), c.bytes.len())).max();
             eprintln!("batch of {} in {:?}; done {}; slowest load {:?}", batch.len(), tb.elapsed(), done, slow);
@@ -1150,6 +1160,7 @@ pub fn run(args: &Args) {
 
 /// Timing of the child machinery (development aid: `loadfuzz c05bench`).
 pub fn bench() {
+    unsafe { std::env::set_var("RTEN_NUM_THREADS", "1") };
     let ctx = Ctx::new();
     let spec = &rt::seed_specs()[1];
     let bytes = rt::build(spec);
@@ -1157,7 +1168,7 @@ pub fn bench() {
         let case = Case { bytes: bytes.clone(), fmt: Fmt::Rten, origin: Fmt::Rten, class: "bench".into(), seed_name: "bench".into(), structured: true, mask, run_model };
         let t = std::time::Instant::now();
         for _ in 0..50 {
-            let oc = ctx.run_one(&case, 10, false);
+            let oc = ctx.run_one(&case, 10, false, false);
             if let Some(c) = &oc.crash {
                 eprintln!("bench child died: {} stage {} entry {}\n{}", c.class, c.stage, c.entry, c.stderr);
                 break;
@@ -1166,7 +1177,7 @@ pub fn bench() {
         eprintln!("{}: {:?} per single-case child", name, t.elapsed() / 50);
         let cases: Vec<Case> = (0..200).map(|_| case.clone()).collect();
         let t = std::time::Instant::now();
-        let ocs = ctx.run_batch(&cases, 10, false);
+        let ocs = ctx.run_batch(&cases, 10, false, false);
         eprintln!("{}: {:?} per case in a batch of {}", name, t.elapsed() / 200, ocs.len());
     }
     ctx.env.cleanup();
